@@ -97,6 +97,17 @@ def run(ck):
                 if f not in seen:
                     seen.add(f)
                     fs.append(f)
+    if ck.tier == 'thorough':
+        # 4-line files over a reduced alphabet (own entry in its variants, a foreign library, foreign snoopy, comments, blank)
+        import itertools as _it
+        A4 = C.line_alphabet(LIB)
+        red4 = [A4[i] for i in (0, 3, 5, 7, 8, 12, 13, 14)]
+        seen4 = set(fs)
+        for combo in _it.product(red4, repeat=4):
+            for f in (b'\n'.join(combo) + b'\n', b'\n'.join(combo)):
+                if f not in seen4:
+                    seen4.add(f)
+                    fs.append(f)
     cases = [(f, 'dd') for f in fs] + [(f, 'ed') for f in fs]
     # caller / installation states (differential against the plain run of the same file): descriptors 0-2 closed; the library file already removed
     sub = fs if ck.tier == 'thorough' else [f for f in fs if f is None or f.count(b'\n') + (0 if f.endswith(b'\n') or not f else 1) <= 2]
